@@ -238,6 +238,37 @@ def build() -> Check:
         pw = unguarded_powers(f_.node)
         ck.ob("R4.backoff-power-cannot-overflow", fn_construct(f_), not pw,
               "; ".join(f"line {n_.lineno}: `{ast.unparse(n_)[:70]}` overflows for a float rate once the attempt number is large (2.0 ** 1024) - before the cap is applied" for n_ in pw))
+        # ... and where the overflow is caught, the substitute has to be what the PRODUCT would have been (h2_C12 #1, a regression of my own repair
+        # b8887bb): the power overflowing says nothing about `initial * power` when the other factor is zero - Duration() / from_seconds(0.5) are legal
+        # initial delays and mean "always the 1 s minimum", not "the cap from attempt 1025 on". Necessary: the handler looks at every other factor.
+        par_ = {}
+        for n_ in ast.walk(f_.node):
+            for c_ in ast.iter_child_nodes(n_):
+                par_[id(c_)] = n_
+        n_guarded = 0
+        for n_ in ast.walk(f_.node):
+            if not (isinstance(n_, ast.BinOp) and isinstance(n_.op, ast.Pow) and not isinstance(n_.right, ast.Constant)):
+                continue
+            cof, cur = [], n_
+            while isinstance(par_.get(id(cur)), ast.BinOp) and isinstance(par_[id(cur)].op, ast.Mult):
+                up = par_[id(cur)]
+                cof.append(up.left if up.right is cur else up.right)
+                cur = up
+            tr = cur
+            while tr is not None and not isinstance(tr, ast.Try):
+                tr = par_.get(id(tr))
+            hs = [h for h in (tr.handlers if tr is not None else []) if h.type is not None and "OverflowError" in ast.unparse(h.type)]
+            if not hs or not cof:
+                continue
+            n_guarded += 1
+            body_txt = "\n".join(ast.unparse(b_) for b_ in hs[0].body)
+            unseen = [ast.unparse(c_) for c_ in cof if ast.unparse(c_) not in body_txt]
+            ck.ob("R4.overflow-fallback-follows-the-product", fn_construct(f_), not unseen,
+                  f"the OverflowError handler (line {hs[0].lineno}) substitutes a value without looking at {unseen}: with a zero initial delay the product is 0 for every "
+                  "attempt (delay = the 1 s minimum) but from the first attempt whose power overflows (1025 with the default rate 2.0, 32 with 1e10) the cap - 300 s - is "
+                  "returned and recorded as NextAttemptDelaySeconds")
+        ck.analysed.setdefault("guarded_backoff_powers", 0)
+        ck.analysed["guarded_backoff_powers"] += n_guarded
     return ck
 
 
